@@ -1160,4 +1160,20 @@ def kernels():
     K("k19", ["a", "b", "c"], [["let", "l1", ["slice", [_fld("a", "Val"), V("c")]]], ["let", "l2", ["slice", [V("b"), call("iwrap", V("c"))]]],
                                ["let", "l3", ["slice", [V("b"), call("imkint", LIT["int"])]]], ["let", "l4", ["slice", [V("a"), call("iwrap", V("c"))]]]],
       pair(pair(V("l1"), V("l2")), pair(V("l3"), V("l4"))))
+    # a field access on a LAMBDA parameter whose record type comes from an annotated slice parameter, in ONE expression: the first
+    # pass of InferLfd only resolves body-local variables (the signature gains nothing), the second pass fixes the parameter y
+    def KA(name, params, forced, fin):
+        f = AstFn({"name": name, "params": params, "stmts": [], "fin": fin, "ptypes": [[q, t] for q, (_, t) in forced.items()]})
+        f.forced = forced
+        ks.append(f)
+    IR2S = ("[]IR2", ["slice", ["named", "IR2", []]])
+    BOXS = ("[]IBox<string>", ["slice", ["named", "IBox", [STR]]])
+    KA("k20a", ["bags", "y"], {"bags": IR2S}, call("slice.Length", call("slice.Map", ["lam", "b", ["slice", [_fld("b", "Vals"), ["slice", [V("y")]]]]], V("bags"))))
+    KA("k20b", ["bs", "y"], {"bs": BOXS}, call("slice.Map", ["lam", "b", ["slice", [_fld("b", "Val"), V("y")]]], V("bs")))
+    KA("k20c", ["bags", "y"], {"bags": IR2S}, call("slice.Map", ["lam", "b", call("slice.Map", ["lam", "v", ["slice", [V("v"), V("y")]]], _fld("b", "Vals"))], V("bags")))
+    KA("k20d", ["y", "bags"], {"bags": IR2S}, ["tuple", [V("y"), call("slice.Map", ["lam", "b", ["tuple", [_fld("b", "Name"), ["slice", [_fld("b", "Vals"), ["slice", [V("y")]]]]]]], V("bags"))]])
+    # a lambda parameter with the name of an outer variable that is used again after the lambda: the two are different variables
+    K("k21a", ["x", "ys"], [["let", "zs", call("slice.Map", ["lam", "x", call("int+", V("x"), LIT["int"])], V("ys"))]], pair(V("x"), V("zs")))
+    K("k21b", ["x", "ys"], [["let", "zs", call("slice.Map", ["lam", "x", call("int+", V("x"), LIT["int"])], V("ys"))], ["let", "w", ["slice", [V("x"), LIT["str"]]]]], pair(V("w"), V("zs")))
+    K("k21c", ["x", "ys"], [["let", "g", ["lam", "x", ["slice", [V("x")]]]], ["let", "zs", ["app", "g", [LIT["int"]]]]], pair(pair(V("x"), V("zs")), V("ys")))
     return ks
